@@ -319,10 +319,23 @@ __CPROVER_assigns(fv, fv_n, g_sort_calls, g_sort_n)
                 pp_defines=(("GUDHI_USE_TBB",) if tbb else ()), canary=(r"if \(ignore_simplex\((\w+)\)\) continue;", r"if (!ignore_simplex(\1)) continue;"))
         U.append(Unit("order.cache.initialize_filtration" + (".tbb" if tbb else ""), "C03", [fn], enforce="initialize_filtration", globals_=G, unwind=2 * NSX + 2,
                       route="B", bound=f"at most {NSX} simplices in the complex, at most {NSX} stale entries in the cache; which simplices are ignored is symbolic",
-                      inputs=["g_nsimplex", "fv_n", "g_probe", "g_ign"],
+                      inputs=["g_nsimplex", "fv_n", "g_probe", "g_ign"], replay=replay_by_native_search,
                       harness="int main(void) {\n  g_nsimplex = nondet_size(); fv_n = nondet_size(); g_probe = nondet_size(); g_sort_calls = 0;\n  initialize_filtration();\n  __CPROVER_assert(0, \"VP_REACH\");\n  return 0;\n}\n",
                       desc="Simplex_tree::initialize_filtration(Comparator, Ignorer)" + (" (GUDHI_USE_TBB branch)" if tbb else "") + ": whatever the cache held before, afterwards it lists every non-ignored simplex of the complex exactly once and no ignored one, and was sorted as a whole exactly once ('It always recomputes the cache, even if one already exists')"))
     return U
+
+NATIVE_RESULTS = []
+
+
+def replay_by_native_search(unit, failure):
+    """A refuted obligation over ghost tables has no input-level counterexample of its own; the failing input is
+    searched for by the bounded native stand-in of the same run (the Simplex_tree sweep)."""
+    for n in NATIVE_RESULTS:
+        if n["unit"] == "native.simplex_tree" and n.get("failures"):
+            c = n["failures"][0]
+            return {"reproduced": True, "detail": f"native.simplex_tree on the real classes: {c.get('case')}", "native_case": c}
+    return {"reproduced": None, "detail": "no swept input shows a difference on the real classes"}
+
 
 def units(tier):
     U = []
